@@ -24,18 +24,6 @@ open Wrapper Reconcile
 
 section F
 
-theorem nodup_same_name {ws : List W} (h : NamesNodup ws) {a b : W} (ha : a ∈ ws) (hb : b ∈ ws)
-    (hn : a.cfg.name = b.cfg.name) : a = b := by
-  induction ws with
-  | nil => cases ha
-  | cons c cs ih =>
-    have hp := List.pairwise_cons.mp h
-    rcases List.mem_cons.mp ha with rfl | ha' <;> rcases List.mem_cons.mp hb with rfl | hb'
-    · rfl
-    · exact absurd hn (hp.1 b hb')
-    · exact absurd hn.symm (hp.1 a ha')
-    · exact ih hp.2 ha' hb'
-
 /-- ANY DIFFERENCE ⇒ STOP + START WITH THE NEW CONFIGURATION.  A running proxy whose configured
     entry `c` (the last one of its name in the loaded list) differs from what the wrapper carries —
     in whatever field — gets exactly one CloseProxy; its wrapper object is gone; exactly one NewProxy
